@@ -484,3 +484,12 @@ def mc(ctx):
 
 
 RULES.append(mc)
+
+
+@rule("H13", doc="a class is never shrunk to a slot set computed in another class's names (C01.R8)")
+def h13(ctx):
+    from . import c01
+    c01.r8(ctx)
+
+
+RULES.append(h13)
